@@ -68,6 +68,13 @@ Ltac rk_prim :=
 Ltac rk_solve :=
   first [ solve [rk_prim]
         | solve [apply (sat_next_or_eof Rrk); rk_prim]
+        | solve [apply (sat_next_or_eof_char Rrk); rk_prim]
+        | solve [apply (sat_take_bytes Rrk); rk_prim]
+        | solve [apply (sat_r6rs_char_hex_loop Rrk); rk_prim]
+        | solve [apply (sat_char_name_loop Rrk); rk_prim]
+        | solve [apply (sat_parse_number Rrk); rk_prim]
+        | solve [apply (sat_parse_num_literal Rrk); rk_prim]
+        | solve [apply (sat_decode_utf8_sequence Rrk); rk_prim]
         | solve [apply (sat_peek_or_null Rrk); rk_prim]
         | solve [apply (sat_as_str Rrk); rk_prim]
         | solve [apply (sat_finish_str Rrk); rk_prim]
